@@ -1,0 +1,7 @@
+//go:build !verif
+
+package sse
+
+func verifYield(string, int64, any) {}
+
+func verifRecover(any) {}
